@@ -183,7 +183,7 @@ impl SubCheckT for Orders {
     const NAME: &'static str = "orders";
     const RULE: &'static str = "random CNF: linear_order, min_fill_order, force_order (only for >=1 clause and no empty clause), VarOrder::new(random permutation) followed by 0..3 new_last(): num_vars, in_order_iter is a permutation, get/var_at_level mutually inverse, lt/lte/above/below/last_var/reverse iteration consistent with positions, new labels appended at the end without disturbing the prefix. Non-trivial: >=3 clauses with >=2 literals over >=3 variables";
     fn cases(tier: Tier) -> u32 {
-        tier.pick(4000, 150_000)
+        tier.pick(12_000, 150_000)
     }
     fn strategy(_tier: Tier) -> BoxedStrategy<OrderCase> {
         (cnf_strategy(), order_keys_strategy(), any::<u8>())
@@ -396,7 +396,7 @@ impl SubCheckT for Dtrees {
     const NAME: &'static str = "dtree";
     const RULE: &'static str = "random CNF with >=1 clause x elimination order in {linear, min-fill, FORCE, random permutation}: leaf clauses = the CNF's clauses (multiset of literal sets), leaf vars = clause variables, node vars = union of the variables below (recomputed by the harness), cutsets = (vars(l) & vars(r)) minus ancestors' cutsets (leaf: vars minus ancestors'), cutwidth = largest internal cutset; VTree::from_dtree is None iff no variable is mentioned, else its leaves are exactly the mentioned variables, once each. Non-trivial: >=3 clauses and a non-empty internal cutset";
     fn cases(tier: Tier) -> u32 {
-        tier.pick(4000, 150_000)
+        tier.pick(12_000, 150_000)
     }
     fn strategy(_tier: Tier) -> BoxedStrategy<DtreeCase> {
         (cnf_strategy(), 0u8..4, order_keys_strategy())
@@ -552,7 +552,7 @@ impl SubCheckT for Manager {
     const NAME: &'static str = "vtree_manager";
     const RULE: &'static str = "random vtrees with 1..12 leaves (right-linear, left-linear, balanced, random splits; labels a permutation of 0..k-1, sometimes non-contiguous): var_index = in-order position, vtree(idx) = that subtree, lca for all node pairs, is_prime_index / is_prime_var / is_prime on literals = the relation read off the shape (x is in the left part at the least common ancestor), num_vars = number of leaves. Non-trivial: >=4 leaves and neither right- nor left-linear";
     fn cases(tier: Tier) -> u32 {
-        tier.pick(4000, 150_000)
+        tier.pick(12_000, 150_000)
     }
     fn strategy(_tier: Tier) -> BoxedStrategy<VtreeCase> {
         vtree_case_strategy(12, true)
@@ -629,7 +629,7 @@ impl SubCheckT for Lca {
     const NAME: &'static str = "btree_lca";
     const RULE: &'static str = "LeastCommonAncestor built on random binary trees (1..12 leaves) and queried for all ordered pairs of breadth-first indices against the ancestor-chain definition. Non-trivial: >=7 nodes, neither linear shape";
     fn cases(tier: Tier) -> u32 {
-        tier.pick(3000, 100_000)
+        tier.pick(8000, 100_000)
     }
     fn strategy(_tier: Tier) -> BoxedStrategy<VtreeCase> {
         vtree_case_strategy(12, false)
